@@ -1,8 +1,85 @@
-(* C15 — FileSnapshotStore is crash-atomic, verified and retains the newest.  (statements: see below) *)
+(* C15 — FileSnapshotStore is crash-atomic, verified and retains the newest.
+   Statements only; proofs in Proofs/FileSnapA..J.v and Proofs/FileSnapProofs.v.
+   Model: Model/FileSnap.v (the file-system op program of Create/Write/Close/Cancel/reap, a file
+   system with the stated persistence model, crashes, List/Open), vocabulary in Model/FileSnapSpec.v.
+   Tie: the op program is compared with the syscalls of the real store under strace; List/Open are
+   compared on materialised crash images and explicit (corrupted) images (components 15/1501/1502).
+
+   Persistence model (a trusted statement about the platform, in Model/FileSnap.v): directory
+   operations persist in program order (a crash keeps a prefix j of them), any fsync is a barrier
+   for the earlier ones (j >= last fsync), a file's content written after its last fsync is
+   ARBITRARY after the crash: the theorems hold for every junk function jm, js. *)
 From Coq Require Import List NArith Bool.
-From RaftModel Require Import FileSnap.
+From RaftModel Require Import FileSnap FileSnapSpec.
+From RaftProofs Require Import FileSnapProofs FileSnapOpen.
 Import ListNotations.
 Open Scope N_scope.
+
+(* For every history of Create/Write/Close/Cancel (any order of terms and indices, any sizes, any
+   number of sinks open at once), every unlink order of RemoveAll, every crash point k, every
+   surviving directory prefix j allowed by the fsyncs, and every content of the un-synced files: *)
+
+(* 1. whatever List returns opens, with exactly the bytes written to that sink (checksum verified),
+      carries the (term, index) it was created with, came from a Close and was renamed before the crash *)
+Theorem C15_listed_snapshots_open_with_what_was_written : forall sfirst retain script k j jm js,
+  well_formed script ->
+  crash_ok (program sfirst retain script) k j = true ->
+  forall sid m, In (sid, m) (list_snaps retain (crash_tree (program sfirst retain script) k j jm js)) ->
+    open_snap (crash_tree (program sfirst retain script) k j jm js) sid = Some (written script sid) /\
+    created_as script sid = Some (mv_term m, mv_index m) /\
+    ended script sid = Some true /\
+    In (FRename sid) (firstn k (program sfirst retain script)).
+Proof. exact listed_opens. Qed.
+Print Assumptions C15_listed_snapshots_open_with_what_was_written.
+
+(* 2. newest first, no duplicates, at most retain *)
+Theorem C15_list_sorted_and_bounded : forall sfirst retain script k j jm js,
+  well_formed script ->
+  crash_ok (program sfirst retain script) k j = true ->
+  let L := list_snaps retain (crash_tree (program sfirst retain script) k j jm js) in
+  sorted_desc L /\ NoDup (map fst L) /\ (length L <= N.to_nat retain)%nat.
+Proof. exact listed_sorted. Qed.
+Print Assumptions C15_list_sorted_and_bounded.
+
+(* 3. a snapshot whose Close had returned nil is durable and listed - unless retain listed
+      snapshots are all newer (retention never removes the newest) *)
+Theorem C15_closed_snapshot_is_listed : forall sfirst retain script k j jm js,
+  well_formed script ->
+  crash_ok (program sfirst retain script) k j = true ->
+  let L := list_snaps retain (crash_tree (program sfirst retain script) k j jm js) in
+  forall sid t i, close_returned sfirst retain script sid k -> created_as script sid = Some (t, i) ->
+    In sid (map fst L) \/
+    (length L = N.to_nat retain /\ forall x, In x L -> key_lt (sid, mkMV 1 t i (Some (written script sid))) x = true).
+Proof. exact closed_is_listed. Qed.
+Print Assumptions C15_closed_snapshot_is_listed.
+
+(* 4. a cancelled snapshot, or one not yet renamed when the crash happened, is never listed *)
+Theorem C15_unfinished_snapshot_never_listed : forall sfirst retain script k j jm js,
+  well_formed script ->
+  crash_ok (program sfirst retain script) k j = true ->
+  forall sid, (ended script sid = Some false \/ ~ In (FRename sid) (firstn k (program sfirst retain script))) ->
+    ~ In sid (map fst (list_snaps retain (crash_tree (program sfirst retain script) k j jm js))).
+Proof. exact unfinished_not_listed. Qed.
+Print Assumptions C15_unfinished_snapshot_never_listed.
+
+(* corrupted files (explicit images): Open never returns bytes that differ from what the metadata's
+   checksum covers - directly from the definition of open_snap, stated for any file system *)
+Theorem C15_open_returns_checksummed_bytes : forall f sid bytes,
+  open_snap f sid = Some bytes ->
+  exists d x y m, find_final f sid = Some d /\ d_meta d = Some x /\ d_state d = Some y /\
+                  mf_c x = MFull m /\ mv_crc m = Some bytes /\ sf_c y = bytes.
+Proof. exact open_checksummed. Qed.
+Print Assumptions C15_open_returns_checksummed_bytes.
+
+(* non-vacuity: three snapshots, retain 2, a crash in the middle of the reap of the oldest, with
+   the platform's unlink order (state.bin first): the half-removed snapshot is not listed *)
+Example C15_example :
+  let script := [SCreate 1 1 1; SWrite 1 [7]; SClose 1; SCreate 2 1 2; SClose 2; SCreate 3 2 1; SWrite 3 [8; 9]; SClose 3] in
+  let ops := program true 2 script in
+  crash_ok ops (length ops - 2) (length ops - 2) = true /\
+  map fst (list_snaps 2 (crash_tree ops (length ops - 2) (length ops - 2) (jm_code 0) (js_code 0))) = [3; 2] /\
+  open_snap (crash_tree ops (length ops - 2) (length ops - 2) (jm_code 0) (js_code 0)) 3 = Some [8; 9].
+Proof. vm_compute. repeat split. Qed.
 
 Example C15_example_program :
   program false 1 [SCreate 1 1 1; SWrite 1 [65; 66]; SClose 1]
